@@ -3,6 +3,7 @@ package mc
 import (
 	"fmt"
 	"runtime"
+	"sync"
 )
 
 // Operation kinds announced at scheduling points.
@@ -17,9 +18,10 @@ const (
 	KAwait           // AwaitQuiescence
 	KWgWait          // WaitGroup.Wait
 	KWgAdd           // WaitGroup.Add/Done
+	KAtomicLoad      // sync/atomic load (a read of the cell)
 )
 
-var kindNames = []string{"start", "atomic", "lock", "unlock", "once", "once-exit", "user", "await", "wg-wait", "wg-add"}
+var kindNames = []string{"start", "atomic", "lock", "unlock", "once", "once-exit", "user", "await", "wg-wait", "wg-add", "atomic-load"}
 
 type op struct {
 	cell uintptr
@@ -59,13 +61,19 @@ type sched struct {
 }
 
 func newSched(x *X) *sched {
-	return &sched{x: x, yield: make(chan struct{}), held: map[uintptr]int{}, onceRunning: map[uintptr]bool{},
-		onceDone: map[uintptr]bool{}, wg: map[uintptr]int{}, bound: x.sc.PreemptionBound, cells: map[uintptr]int{}}
+	s := &sched{x: x, yield: make(chan struct{}), bound: x.sc.PreemptionBound}
+	if x.rec {
+		s.cells = map[uintptr]int{}
+	}
+	return s
 }
 
 func (s *sched) cellName(c uintptr) string {
 	if c == 0 {
 		return "-"
+	}
+	if s.cells == nil {
+		s.cells = map[uintptr]int{}
 	}
 	n, ok := s.cells[c]
 	if !ok {
@@ -82,7 +90,7 @@ func (s *sched) spawn(name string, fn func()) *thread {
 	t := &thread{id: len(s.threads), name: name, resume: make(chan bool), fn: fn}
 	t.op = op{cell: 0, kind: KStart}
 	s.threads = append(s.threads, t)
-	go func() {
+	body := func() {
 		if abort := <-t.resume; abort {
 			t.finished = true
 			s.yield <- struct{}{}
@@ -109,8 +117,42 @@ func (s *sched) spawn(name string, fn func()) *thread {
 		}()
 		fn()
 		completed = true
-	}()
+	}
+	runPooled(body)
 	return t
+}
+
+// Thread goroutines are pooled across executions: their stacks have already grown to what the
+// library's call chains need, which saves the repeated stack copying that dominated the
+// profile. A job that ends through runtime.Goexit (abort) or a panic takes its goroutine with
+// it; the pool simply starts a new one next time.
+var idleWorkers []chan func()
+
+var poolMu sync.Mutex
+
+func runPooled(job func()) {
+	poolMu.Lock()
+	if n := len(idleWorkers); n > 0 {
+		w := idleWorkers[n-1]
+		idleWorkers = idleWorkers[:n-1]
+		poolMu.Unlock()
+		w <- job
+		return
+	}
+	poolMu.Unlock()
+	w := make(chan func(), 1)
+	w <- job
+	go func() {
+		for j := range w {
+			j()
+			// only reached when the job returned normally; runs on the job's own goroutine while
+			// the controller owns the scheduler, so the append below is ordered by the yield
+			// handshake that preceded it? No: the job has already yielded; guard with the lock.
+			poolMu.Lock()
+			idleWorkers = append(idleWorkers, w)
+			poolMu.Unlock()
+		}
+	}()
 }
 
 func (s *sched) enabled(t *thread) bool {
@@ -142,14 +184,19 @@ func (s *sched) enabled(t *thread) bool {
 	return true
 }
 
-func independent(a, b op) bool {
+func (s *sched) independent(a, b op) bool {
 	if a.kind == KAwait || b.kind == KAwait {
 		return false
 	}
 	if a.kind == KStart || b.kind == KStart {
 		return true
 	}
-	return a.cell != b.cell
+	if a.cell != b.cell {
+		return true
+	}
+	// two loads of one cell commute only if the scenario says that the plain-memory work a
+	// thread does between a load and its next atomic step does not depend on their order
+	return s.x.sc.ReadsCommute && a.kind == KAtomicLoad && b.kind == KAtomicLoad
 }
 
 // run drives all threads to completion (or abort). Called on the controller goroutine.
@@ -241,13 +288,13 @@ func (s *sched) run() {
 			var ns uint64
 			if s.sleep != 0 {
 				for _, u := range s.threads {
-					if s.sleep&(1<<uint(u.id)) != 0 && !u.finished && independent(u.op, t.op) {
+					if s.sleep&(1<<uint(u.id)) != 0 && !u.finished && s.independent(u.op, t.op) {
 						ns |= 1 << uint(u.id)
 					}
 				}
 			}
 			for _, u := range cand[:c] {
-				if independent(u.op, t.op) {
+				if s.independent(u.op, t.op) {
 					ns |= 1 << uint(u.id)
 				}
 			}
@@ -258,11 +305,17 @@ func (s *sched) run() {
 		}
 		switch t.op.kind {
 		case KLock:
+			if s.held == nil {
+				s.held = map[uintptr]int{}
+			}
 			s.held[t.op.cell] = t.id
 		case KUnlock:
 			delete(s.held, t.op.cell)
 		case KOnce:
 			if !s.onceDone[t.op.cell] {
+				if s.onceRunning == nil {
+					s.onceRunning = map[uintptr]bool{}
+				}
 				s.onceRunning[t.op.cell] = true
 			}
 		}
@@ -393,6 +446,9 @@ func HookActive() bool { return active != nil }
 
 func HookPoint(cell uintptr, kind int, note string) {
 	if s := active; s != nil {
+		if kind == KAtomicLoad && s.x.sc.SilentLoads {
+			return
+		}
 		s.point(op{cell: cell, kind: kind, note: note})
 	}
 }
@@ -402,7 +458,11 @@ func HookGo(fn func()) bool {
 	if s == nil {
 		return false
 	}
-	s.spawn(fmt.Sprintf("task%d", len(s.threads)), fn)
+	name := "task"
+	if s.x.rec {
+		name = fmt.Sprintf("task%d", len(s.threads))
+	}
+	s.spawn(name, fn)
 	return true
 }
 
@@ -418,6 +478,12 @@ func HookOnceDo(cell uintptr, f func()) bool {
 	}
 	// scheduler set onceRunning when it granted the entry
 	defer func() {
+		if s.onceDone == nil {
+			s.onceDone = map[uintptr]bool{}
+		}
+		if s.onceRunning == nil {
+			s.onceRunning = map[uintptr]bool{}
+		}
 		s.onceDone[cell] = true
 		s.onceRunning[cell] = false
 	}()
@@ -439,6 +505,9 @@ func HookWgAdd(cell uintptr, d int) bool {
 		return false
 	}
 	s.point(op{cell: cell, kind: KWgAdd})
+	if s.wg == nil {
+		s.wg = map[uintptr]int{}
+	}
 	s.wg[cell] += d
 	return true
 }
